@@ -118,6 +118,22 @@ impl StreamingQueryExecutor {
             .iter()
             .map(|chunk| chunk.chunk_path.clone())
             .collect();
+
+        // Nothing selected while the placeholder (built-in default schema) is still bound:
+        // bind the real chunks once so the empty table keeps their schema (see QueryNode).
+        if chunk_paths.is_empty() && self.engine.metrics_table_is_placeholder() {
+            let bootstrap_paths: Vec<String> = self
+                .metadata
+                .list_chunks()
+                .await?
+                .iter()
+                .map(|chunk| chunk.chunk_path.clone())
+                .collect();
+            self.engine
+                .register_metrics_table_for_chunks(&bootstrap_paths)
+                .await?;
+        }
+
         let historical_batches = self
             .engine
             .with_metrics_table(&chunk_paths, || async { self.engine.execute(sql).await })
